@@ -45,6 +45,7 @@ import (
 	_ "verif/harness/c17"
 	_ "verif/harness/c18"
 	_ "verif/harness/c19"
+	_ "verif/harness/c20"
 )
 
 type replayFile struct {
